@@ -16,7 +16,8 @@ RULE = ('cases = operation sequences (<=30 ops) over one SimulatedClock whose re
         'never decreasing, frozen while stopped, speed x elapsed while started, rejected '
         'assignment raises ValueError and changes nothing, accepted assignment takes effect '
         'exactly; SynchronizedClock(i).time == i.time == clock value at the last execute_once, also '
-        'for the clocks bind_property_statechart creates (regular and deprecated call). '
+        'for the clocks bind_property_statechart creates (regular and deprecated call, and on an '
+        'interpreter that itself runs on a SynchronizedClock). '
         'Non-trivial = sequence with a speed change or an assignment while the clock is running '
         'and real time passing afterwards; distinct = sha1(op list).')
 ASSUMPTIONS = ['all numbers are dyadic rationals between 2**-18 and 2**31 (at most 50 significant '
@@ -77,6 +78,7 @@ def oracle(case):
         # clocks created by bind_property_statechart (regular call and the deprecated call that
         # receives an Interpreter): they follow `interp` too.  Not combined with copies.
         followers = []
+        chain = None
         if not any(o[0] == 'copy' for o in case['ops']):
             psc = Statechart('p')
             psc.add_state(BasicState('pa'), None)
@@ -88,6 +90,14 @@ def oracle(case):
             interp.bind_property_statechart(dep)
             followers = [('bound property statechart', made[0]),
                          ('property interpreter bound the deprecated way', dep)]
+            # a chain: `second` runs on a clock that follows `interp`, and a property statechart
+            # is bound to `second`: that property's clock follows `second`, not `interp`
+            second = Interpreter(psc, clock=SynchronizedClock(interp))
+            made2 = []
+            second.bind_property_statechart(
+                psc, interpreter_klass=lambda sc_, clock: made2.append(
+                    Interpreter(sc_, clock=clock)) or made2[-1])
+            chain = (second, made2[0])
             labels['sequences with bound property statecharts'] = 1
         last_read = Fraction(0)
         last_exec = Fraction(interp.time)
@@ -208,6 +218,15 @@ def oracle(case):
                     bad('synchronized-clock-differs-from-last-step-time', i, which=who,
                         sync=pi.clock.time, last_step=float(last_exec))
                     break
+            if chain is not None and not viol:
+                second, pi2 = chain
+                if k in ('read', 'speed'):
+                    second.execute_once()      # the follower steps now and then
+                if pi2.clock.time != second.time or second.time > interp.time:
+                    bad('synchronized-clock-differs-from-last-step-time', i,
+                        which='property statechart bound to an interpreter that itself follows',
+                        sync=pi2.clock.time, follower_time=second.time,
+                        leader_time=interp.time)
             if viol:
                 break
     finally:
